@@ -11,12 +11,13 @@ import Proofs.Kept
 import Obligations.C10Flat
 import Obligations.C09Flat
 import Obligations.C07Near
+import Obligations.C13
 
 namespace Measured.Obligations.History
 open Measured Measured.Obligations Measured.Obligations.NearShipped Measured.Obligations.FlatTemp
 open Measured.Obligations.Direct Generated St
 
-theorem shipped_good : Good shipped.st := ⟨init_canon, init_ginv⟩
+theorem shipped_good : Good shipped.st := ⟨init_canon, init_ginv, init_baseInv⟩
 
 /-- **Every valid history of queries and unit operations on the shipped registries ends in a state of the shipped
     graph**: same ratio and offset tables, unit table extended, canonical and consistent. -/
@@ -24,14 +25,14 @@ theorem shippedState_after (ops : List QOp) (hv : ValidHistory shipped ops) :
     ShippedState (ops.foldl QOp.after shipped) := by
   have hf := queries_frame shipped ops
   have hg := queries_good ops shipped shipped_good hv
-  exact ⟨shipped_graphNear.frame hf hg.1 hg.2.1 hg.2.2, shipped_graphWF.frameN shipped_graphNear hf, hf⟩
+  exact ⟨shipped_graphNear.frame hf hg.1 hg.2.1.1 hg.2.1.2, shipped_graphWF.frameN shipped_graphNear hf, hf⟩
 
 /-- and histories compose: from any state of the shipped graph, a further valid history ends in one -/
-theorem shippedState_after_from {c : Conv Rat} (hs : ShippedState c) (ops : List QOp) (hv : ValidHistory c ops) :
+theorem shippedState_after_from {c : Conv Rat} (hs : ShippedState c) (hb : BaseInv c.st) (ops : List QOp) (hv : ValidHistory c ops) :
     ShippedState (ops.foldl QOp.after c) := by
   have hf := queries_frame c ops
-  have hg := queries_good ops c ⟨hs.near.canon, hs.near.inv, hs.near.reg⟩ hv
-  exact ⟨hs.near.frame hf hg.1 hg.2.1 hg.2.2, hs.wf.frameN hs.near hf, hs.frame.trans hf⟩
+  have hg := queries_good ops c ⟨hs.near.canon, ⟨hs.near.inv, hs.near.reg⟩, hb⟩ hv
+  exact ⟨hs.near.frame hf hg.1 hg.2.1.1 hg.2.1.2, hs.wf.frameN hs.near hf, hs.frame.trans hf⟩
 
 theorem shippedState_offRef {c : Conv Rat} (hs : ShippedState c) : OffRef c.st Zt c.offsets := by
   have := shipped_offRef.ext hs.frame.ext
